@@ -5,7 +5,7 @@
  * One context acts as server (UDP + TCP endpoint on loopback, resources /r /obs /async) and as client (UDP and TCP
  * client sessions to its own endpoints, one UDP session to a closed port for NACKs).  One thread sits in
  * coap_io_process(); <nthreads> application threads issue send / notify / session create+release / resource
- * add+delete / cache / ping calls on the same context.  Every callback type the property enumerates is registered
+ * add+delete / cache / ping calls on the same context (and a repeated coap_startup()).  Every callback type the property enumerates is registered
  * (request, response, NACK, event, ping, pong) and re-enters the public API.  A watchdog checks that every thread keeps
  * making progress.  Output: one line, `ok` or `stuck thread=<i> op=<name>`; TSan reports go to stderr.
  */
@@ -127,7 +127,7 @@ static void *app_thread(void *arg) {
   unsigned k = 0;
   while (!atomic_load(&stop_flag)) {
     st = st * 1103515245u + 12345u;
-    unsigned op = (st >> 16) % 12;
+    unsigned op = (st >> 16) % 13;
     k++;
     switch (op) {
     case 0: cur_op[w->idx] = "send CON GET /r";
@@ -184,6 +184,9 @@ static void *app_thread(void *arg) {
       break;
     case 10: cur_op[w->idx] = "send CON to closed port (NACK)";
       if (dead_s) send_req(dead_s, COAP_MESSAGE_CON, COAP_REQUEST_CODE_GET, "r", 0, (unsigned)w->idx << 24 | k);
+      break;
+    case 12: cur_op[w->idx] = "coap_startup (repeated)";
+      coap_startup();              /* documented: ignored after the first call — also while other threads are in the library */
       break;
     default: cur_op[w->idx] = "send TCP GET /r";
       if (tcp_s) send_req(tcp_s, COAP_MESSAGE_CON, COAP_REQUEST_CODE_GET, "r", 0, (unsigned)w->idx << 24 | k);
